@@ -3,6 +3,7 @@ package h
 import (
 	"bufio"
 	"bytes"
+	"context"
 	"encoding/json"
 	"fmt"
 	"os"
@@ -13,6 +14,7 @@ import (
 	"strconv"
 	"strings"
 	"sync"
+	"syscall"
 	"testing"
 	"time"
 )
@@ -307,7 +309,35 @@ func runIsolated(bin string, c *Case) *Outcome {
 	var stdout, stderr bytes.Buffer
 	cmd.Stdout = &stdout
 	cmd.Stderr = &stderr
-	err = cmd.Run()
+	// watchdog: a child that does not finish is asked for a goroutine dump and killed
+	hung := false
+	if err = cmd.Start(); err == nil {
+		done := make(chan error, 1)
+		go func() { done <- cmd.Wait() }()
+		limit := time.Duration(envInt("VERIF_CHILD_TIMEOUT_S", 90)) * time.Second
+		select {
+		case err = <-done:
+		case <-time.After(limit):
+			hung = true
+			cmd.Process.Signal(syscall.SIGQUIT)
+			select {
+			case err = <-done:
+			case <-time.After(10 * time.Second):
+				cmd.Process.Kill()
+				err = <-done
+			}
+		}
+	}
+	if hung {
+		all := stderr.String()
+		os.WriteFile(filepath.Join(dir, fmt.Sprintf("hang-%d.txt", os.Getpid())), []byte(all), 0644)
+		if frame := runningFrame(all); frame != "" {
+			o.violate(c.Prop, "livelock", -1, 0, map[string]string{"frame": frame}, "the simulated broker never became idle: a goroutine kept running in %s (child killed after %v)", frame, time.Duration(envInt("VERIF_CHILD_TIMEOUT_S", 90))*time.Second)
+			return o
+		}
+		fmt.Fprintf(os.Stderr, "isolated run hung without a running wasp frame; dump in %s\n%s\n", dir, tail(all, 3000))
+		os.Exit(2)
+	}
 	sc := bufio.NewScanner(&stdout)
 	sc.Buffer(make([]byte, 1<<20), 1<<26)
 	for sc.Scan() {
@@ -473,7 +503,9 @@ func driverMain(t *testing.T) int {
 			wg.Add(1)
 			go func(k int) {
 				defer wg.Done()
-				cmd := exec.Command(bin, "-test.run", "^TestEntry$", "-test.timeout", "0")
+				wctx, wcancel := context.WithTimeout(context.Background(), time.Duration(budgetS*2+240)*time.Second)
+				defer wcancel()
+				cmd := exec.CommandContext(wctx, bin, "-test.run", "^TestEntry$", "-test.timeout", "0")
 				gmp := "1"
 				if ck.Build == "lockstep" {
 					gmp = "2"
@@ -778,4 +810,29 @@ func selftestMain() int {
 		return 2
 	}
 	return 0
+}
+
+// runningFrame finds, in a SIGQUIT goroutine dump, a goroutine in state "running" or "runnable"
+// whose stack is inside wasp or mqtt-protocol, and returns its innermost such frame.
+func runningFrame(dump string) string {
+	blocks := strings.Split(dump, "\n\n")
+	for _, b := range blocks {
+		lines := strings.Split(b, "\n")
+		if len(lines) == 0 || !strings.HasPrefix(lines[0], "goroutine ") {
+			continue
+		}
+		if !strings.Contains(lines[0], "[running") && !strings.Contains(lines[0], "[runnable") {
+			continue
+		}
+		for _, l := range lines[1:] {
+			l = strings.TrimSpace(l)
+			if (strings.HasPrefix(l, "github.com/vx-labs/wasp/") || strings.HasPrefix(l, "github.com/vx-labs/mqtt-protocol/")) && !strings.Contains(l, "/verifrt.") {
+				if i := strings.LastIndex(l, "("); i > 0 {
+					l = l[:i]
+				}
+				return l
+			}
+		}
+	}
+	return ""
 }
